@@ -892,14 +892,48 @@ func (m *machine) lookupMethod(t types.Type, meth *types.Func) *ssa.Function {
 
 // permuteMapOrder: in maporder=all harnesses the iteration order of small maps is a fork.
 func (m *machine) permuteMapOrder(it *mapiter) {
-	if !m.h.mapOrderAll || m.inInit || len(it.keys) < 2 || len(it.keys) > 4 {
+	if !m.h.mapOrderAll || m.inInit || len(it.keys) < 2 {
 		return
 	}
 	n := len(it.keys)
+	if n > 4 {
+		// larger maps: three representative orders - insertion order, its reverse, and a stride
+		// permutation (i*k mod n, k coprime to n and close to n/2, so neighbours in insertion order
+		// are far apart) - enough to expose a dependence on iteration order without claiming all n! orders
+		switch m.enumerate(0, 2) {
+		case 1:
+			for i, j := 0, n-1; i < j; i, j = i+1, j-1 {
+				it.keys[i], it.keys[j] = it.keys[j], it.keys[i]
+				it.vals[i], it.vals[j] = it.vals[j], it.vals[i]
+			}
+		case 2:
+			k := n/2 - 1
+			for k > 1 && gcdInt(k, n) != 1 {
+				k--
+			}
+			if k < 1 {
+				k = 1
+			}
+			nk, nv := make([]value, n), make([]value, n)
+			for i := 0; i < n; i++ {
+				nk[i], nv[i] = it.keys[(i*k)%n], it.vals[(i*k)%n]
+			}
+			copy(it.keys, nk)
+			copy(it.vals, nv)
+		}
+		return
+	}
 	// Fisher-Yates with enumerated choices
 	for i := 0; i < n-1; i++ {
 		j := int(m.enumerate(int64(i), int64(n-1)))
 		it.keys[i], it.keys[j] = it.keys[j], it.keys[i]
 		it.vals[i], it.vals[j] = it.vals[j], it.vals[i]
 	}
+}
+
+func gcdInt(a, b int) int {
+	for b != 0 {
+		a, b = b, a%b
+	}
+	return a
 }
